@@ -512,7 +512,7 @@ theorem cast_resp_ok (p : Out → Bool) (hp : Internal p) (hsub : ∀ o, Out.all
     (app : App) (hall : app.all p = true) (fw : Bool) (s : Slots) (out : Out)
     (hs : s.resp.ok = true) (ho : Out.all p out = true) : (cast app fw s out).1.resp.ok = true := by
   have := runLoop_invariant app fw (CfgInv p) (step_inv p hp hsub app hall fw)
-    (Gen.castMaxLoops + 1) (.run 0 s out) ⟨hs, ho⟩
+    (Gen.wsgiCastMaxLoops + 1) (.run 0 s out) ⟨hs, ho⟩
   unfold cast
   split
   · rename_i heq; rw [heq] at this; exact this
